@@ -278,6 +278,35 @@ Section ResFacts.
       destruct (A x Hx) as [r [Hr ->]]. now apply HL.
   Qed.
 
+  (* ---- Pareto views ---- *)
+  Theorem pareto_front_spec : forall (d : T) (front1 : rec -> bool) (ngoals : nat) (pid : Z) (rs : list rec),
+    pareto_individuals front1 pid rs = filter front1 (results_population pid rs) /\
+    (forall r, In r (pareto_individuals front1 pid rs) <-> In r (results_population pid rs) /\ front1 r = true) /\
+    length (pareto_front d front1 ngoals pid rs) = ngoals /\
+    (forall j, (j < ngoals)%nat ->
+       nth j (pareto_front d front1 ngoals pid rs) [] = map (cost_at d j) (pareto_individuals front1 pid rs)).
+  Proof.
+    intros d front1 ngoals pid rs. unfold pareto_front. cbn zeta.
+    split; [reflexivity|]. split; [|split].
+    - intros r. unfold pareto_individuals. rewrite filter_In. tauto.
+    - rewrite map_length. apply seq_length.
+    - intros j Hj.
+      rewrite (nth_indep _ [] ((fun j => map (cost_at d j) (pareto_individuals front1 pid rs)) 0%nat))
+        by (rewrite map_length, seq_length; exact Hj).
+      rewrite (map_nth (fun j => map (cost_at d j) (pareto_individuals front1 pid rs))).
+      rewrite seq_nth by exact Hj. reflexivity.
+  Qed.
+
+  Theorem pareto_values_spec : forall rs : list rec,
+    ((1 < length (last_population rs))%nat -> pareto_values rs = map r_costs (last_population rs)) /\
+    ((length (last_population rs) <= 1)%nat -> pareto_values rs = []).
+  Proof.
+    intros rs. unfold pareto_values. cbn zeta.
+    destruct (Nat.ltb 1 (length (last_population rs))) eqn:E.
+    - split; [reflexivity|]. apply Nat.ltb_lt in E. lia.
+    - split; [|reflexivity]. apply Nat.ltb_ge in E. lia.
+  Qed.
+
   (* ---- sorted listings ---- *)
   Context (H : SWO ltb).
   Notation eqvT a b := (eqv ltb a b = true).
